@@ -6,3 +6,4 @@ import Props.C19
 import Props.C07
 import Props.C06
 import Props.C08
+import Props.C09
